@@ -237,6 +237,15 @@ func (ss sizesim) Run(c *Case, dir string) *Outcome {
 		}
 	}
 	finished = true
+	if c.Prop == "C08" {
+		// C08's size-limit arm: what a refused transaction leaves behind is C08's own
+		// (the length of the file stays C18's)
+		for _, v := range e.Viol {
+			if v.Prop == "C18" && v.Class != "file-exceeds-max-size" {
+				v.Prop, v.Class = "C08", "size-limit:"+v.Class
+			}
+		}
+	}
 	out.Viol = e.Viol
 	out.merge(e.Probes)
 	out.Evals = 1
